@@ -87,6 +87,9 @@ func vBuildCluster(N, E int, localConns int) (*cluster.State, int, int) {
 // configuration and connection distribution.
 func Harness_C19_arith() {
 	v.Tag("c19-cut")
+	if v.Choose("maporder", 2) == 1 {
+		v.Tag("maporder-reverse")
+	}
 	N := v.Param("N", 2)
 	E := v.Param("E", 1)
 	vLocalConns = v.Int("localConns", 0, vMaxConns)
